@@ -121,6 +121,11 @@ func linearOf(v ssa.Value, depth int) linear {
 			return linearOf(x.X, depth+1).mulTerm(linearOf(x.Y, depth+1))
 		}
 		return linear{bad: true}
+	case *ssa.Parameter:
+		if isIntBasic(x.Type()) {
+			return linTerm("@" + valKey(x))
+		}
+		return linear{bad: true}
 	case *ssa.Call:
 		cc := x.Call
 		if b, ok := cc.Value.(*ssa.Builtin); ok && b.Name() == "len" && len(cc.Args) == 1 {
@@ -151,6 +156,8 @@ type sinkWrite struct {
 	size   linear     // bytes written
 	marker int64      // constant uint16 value >= 0xFF00 if the write is a marker constant, else -1
 	callee string
+	psot   linear     // what == "sot": the Psot value, in the caller's terms
+	isot   ssa.Value  // what == "sot": the Isot argument
 }
 
 func unwrapIface(v ssa.Value) ssa.Value {
@@ -255,8 +262,25 @@ func sinkWritesOf(fn *ssa.Function, s ssa.Value) (ws []sinkWrite, ordered bool) 
 					continue
 				}
 				w.what, w.size = "call", linear{bad: true}
+				if m := markerOnlyHelper(sc, s, cc.Args); m >= 0 {
+					w.what, w.marker, w.size = "marker", m, linConst(2)
+				}
+				if h := sotHelper(sc); h.ok && h.sink < len(cc.Args) && unwrapIface(cc.Args[h.sink]) == s && len(cc.Args) == len(sc.Params) {
+					// a helper that writes one complete SOT segment; Psot is its expression over the arguments
+					w.what, w.marker, w.size = "sot", mSOT, linConst(12)
+					w.psot = substParams(h.psot, sc, cc.Args)
+					if h.isot >= 0 {
+						w.isot = cc.Args[h.isot]
+					}
+				}
+				if h := segmentHelper(sc); h.ok && h.sink < len(cc.Args) && unwrapIface(cc.Args[h.sink]) == s && len(cc.Args) == len(sc.Params) {
+					// a generic marker-segment writer (marker, len(payload)+2, payload): one segment
+					w.what, w.val = "segment", cc.Args[h.marker]
+					w.marker = constMarker(cc.Args[h.marker])
+					w.size = linConst(4).add(linTerm("len(" + sliceIdentity(cc.Args[h.body]) + ")"))
+				}
 			}
-			ws = append(ws, w)
+			ws = append(ws, expandWrite(fn, w)...)
 		}
 	}
 	sort.SliceStable(ws, func(i, j int) bool { return instrDominates(ws[i].ins, ws[j].ins) && ws[i].ins != ws[j].ins })
@@ -300,8 +324,15 @@ func runC16(c *Ctx) Info {
 	nFraming := c.orderFramingRule(fns)
 	nOwnerLen, nBytes := c.ownerLengthRule(fns)
 	nSink := c.ownerSinkRule()
-	c.C.Floor("ORDER-FRAMING", nFraming-c.controlCount("ORDER-FRAMING"), 7)
-	c.C.Floor("BYTES", nBytes-c.controlCount("BYTES"), 12)
+	c.C.Floor("ORDER-FRAMING", nFraming-c.controlCount("ORDER-FRAMING"), 5)
+	// anchors, independent of how many functions share the work: every JPEG 2000 stream needs SIZ,
+	// COD, QCD and SOT, so a segment writer for each must have been found and counted
+	for _, m := range []int64{0xFF51, 0xFF52, 0xFF5C, 0xFF90} {
+		if !c.markersSeen[m] {
+			c.C.Fatalf("BYTES: no writer of the mandatory %s segment (0x%04X) was recognised in encode-reachable code: the rule would pass vacuously", j2kSegmentMarkers[m], m)
+		}
+	}
+	c.C.Floor("BYTES", nBytes-c.controlCount("BYTES"), 6)
 	c.C.Floor("OWNER-SINK", nSink-c.controlCount("OWNER-SINK"), 3)
 	for _, r := range []string{"ORDER-FRAMING", "BYTES", "OWNER-SINK"} {
 		c.C.ExpectControl(r)
@@ -316,23 +347,17 @@ func runC16(c *Ctx) Info {
 
 // startMarkerWrite finds a write of the start marker in fn and returns the sink.
 func startMarkerWrite(fn *ssa.Function) (sink ssa.Value, start ssa.CallInstruction, endMarker int64) {
-	for _, b := range fn.Blocks {
-		for _, ins := range b.Instrs {
-			call, ok := ins.(ssa.CallInstruction)
-			if !ok {
+	for _, s := range outputSinks(fn) {
+		ws, _ := sinkWritesOf(fn, s)
+		for _, w := range ws {
+			if w.what != "marker" {
 				continue
 			}
-			cc := call.Common()
-			sc := cc.StaticCallee()
-			if sc == nil {
-				continue
+			if strings.HasSuffix(w.callee, "WriteMarker") && w.marker == mSOI {
+				return s, w.ins, mEOI
 			}
-			name := sc.String()
-			if strings.HasSuffix(name, "standard.Writer).WriteMarker") && len(cc.Args) == 2 && constUint16(cc.Args[1]) == mSOI {
-				return cc.Args[0], call, mEOI
-			}
-			if name == "encoding/binary.Write" && len(cc.Args) == 3 && constUint16(unwrapIface(cc.Args[2])) == mSOC {
-				return unwrapIface(cc.Args[0]), call, mEOC
+			if !strings.HasSuffix(w.callee, "WriteMarker") && w.marker == mSOC {
+				return s, w.ins, mEOC
 			}
 		}
 	}
@@ -432,35 +457,35 @@ func (c *Ctx) orderFramingRule(fns []*ssa.Function) int {
 
 // ownerLengthRule: OWNER-LENGTH (JPEG family) and BYTES (JPEG 2000 + manual JPEG segments).
 func (c *Ctx) ownerLengthRule(fns []*ssa.Function) (nOwner, nBytes int) {
+	c.markersSeen = map[int64]bool{}
 	for _, fn := range fns {
 		if !producesOutput(fn) {
 			continue
 		}
 		isWriteSegment := strings.HasSuffix(fn.String(), "standard.Writer).WriteSegment")
-		// every sink this function writes to
-		sinks := map[ssa.Value]bool{}
-		for _, b := range fn.Blocks {
-			for _, ins := range b.Instrs {
-				call, ok := ins.(ssa.CallInstruction)
-				if !ok {
-					continue
-				}
-				cc := call.Common()
-				sc := cc.StaticCallee()
-				if sc == nil || len(cc.Args) == 0 {
-					continue
-				}
-				name := sc.String()
-				if name == "encoding/binary.Write" {
-					sinks[unwrapIface(cc.Args[0])] = true
-				} else if strings.Contains(name, "standard.Writer).Write") || strings.HasPrefix(name, "(*bytes.Buffer).Write") {
-					sinks[cc.Args[0]] = true
-				}
-			}
+		if h := segmentHelper(fn); h.ok {
+			// the generic segment writer itself: its length field must be len(payload)+2
+			ws, _ := sinkWritesOf(fn, fn.Params[h.sink])
+			nBytes++
+			st, detail := c.countSegment(fn, ws, 0)
+			c.add("BYTES", fn, "generic marker segment ("+fn.Params[h.marker].Name()+", "+fn.Params[h.body].Name()+")", st, c.P.Pos(ws[0].ins.Pos()), detail)
+			continue
 		}
-		for s := range sinks {
+		for _, s := range outputSinks(fn) {
 			ws, ordered := sinkWritesOf(fn, s)
-			for _, w := range ws {
+			for wi, w := range ws {
+				if w.what == "segment" && w.marker >= 0 && !strings.HasSuffix(w.callee, "WriteSegment") {
+					c.markersSeen[w.marker] = true
+				}
+				if w.what == "sot" {
+					// SOT written by a helper: Psot (over the arguments) against what this function writes
+					// from here to the end of the tile-part (header segments, SOD, one run of tile data)
+					nBytes++
+					c.markersSeen[mSOT] = true
+					st, detail := countTilePart(fn, ws, wi)
+					c.add("BYTES", fn, "tile-part after "+w.callee, st, c.P.Pos(w.ins.Pos()), detail)
+					continue
+				}
 				if w.what != "marker" || w.marker < 0 {
 					if w.what == "marker" && w.marker < 0 && !isWriteSegment && strings.HasSuffix(w.callee, "WriteMarker") && !strings.HasSuffix(fn.String(), "standard.Writer).WriteMarker") {
 						nOwner++
@@ -483,13 +508,14 @@ func (c *Ctx) ownerLengthRule(fns []*ssa.Function) (nOwner, nBytes int) {
 				}
 				// a length-bearing marker written by hand: count the segment
 				nBytes++
+				c.markersSeen[w.marker] = true
 				construct := fmt.Sprintf("segment 0x%04X", w.marker)
 				_ = ordered
 				// the writes that follow this marker: those it dominates, which must form a chain
 				seq := []sinkWrite{w}
 				chain := true
-				for _, o := range ws {
-					if o.ins != w.ins && instrDominates(w.ins, o.ins) {
+				for oi, o := range ws {
+					if (o.ins != w.ins && instrDominates(w.ins, o.ins)) || (o.ins == w.ins && oi > wi) {
 						seq = append(seq, o)
 					}
 				}
@@ -611,6 +637,7 @@ func (c *Ctx) countSegment(fn *ssa.Function, ws []sinkWrite, i int) (report.Stat
 	// count bytes from the length field (inclusive) to the end of the segment
 	total := linConst(2)
 	var psot *sinkWrite
+	sawSOD := false
 	psotCount := linConst(4) // marker(2)+Lsot(2) already written when counting Psot from the marker
 	end := len(ws)
 	for j := i + 2; j < len(ws); j++ {
@@ -638,6 +665,7 @@ func (c *Ctx) countSegment(fn *ssa.Function, ws []sinkWrite, i int) (report.Stat
 			}
 			psotCount = psotCount.add(sz.mulTerm(trip))
 			if w.what == "marker" && w.marker == mSOD {
+				sawSOD = true
 				// the tile data follows SOD: one more write belongs to the tile-part
 				if j+1 < len(ws) && ws[j+1].what == "bytes" {
 					psotCount = psotCount.add(ws[j+1].size)
@@ -665,6 +693,13 @@ func (c *Ctx) countSegment(fn *ssa.Function, ws []sinkWrite, i int) (report.Stat
 		if psot == nil {
 			return report.OutOfScope, "Psot write not recognised"
 		}
+		if !sawSOD {
+			// the function writes the SOT segment only: the tile-part extent is its caller's
+			if sotHelper(fn).ok {
+				return report.Discharged, "SOT helper: Lsot = 10 and the segment is 12 bytes; Psot is compared with the bytes of the tile-part at every call site"
+			}
+			return report.OutOfScope, "SOT segment without the rest of the tile-part in this function: Psot not decided here"
+		}
 		pd := linearOf(psot.val, 0)
 		if pd.bad {
 			return report.OutOfScope, "Psot is not a linear expression: " + addrExpr(psot.val)
@@ -678,6 +713,49 @@ func (c *Ctx) countSegment(fn *ssa.Function, ws []sinkWrite, i int) (report.Stat
 		return report.Discharged, "declared length " + declared.String() + " equals the counted bytes"
 	}
 	return report.Violated, "length field declares " + declared.String() + " but " + total.String() + " bytes are written for the segment (length field included)"
+}
+
+// countTilePart: ws[i] is a call of an SOT-writing helper; count the bytes up to the end of the
+// tile-part and compare with the Psot the helper was given.
+func countTilePart(fn *ssa.Function, ws []sinkWrite, i int) (report.Status, string) {
+	loops := naturalLoops(fn)
+	m := ws[i]
+	if m.psot.bad {
+		return report.OutOfScope, "Psot handed to the SOT helper is not a linear expression of len()/constants"
+	}
+	total := linConst(12)
+	for j := i + 1; j < len(ws); j++ {
+		w := ws[j]
+		if w.ins != m.ins && !instrDominates(m.ins, w.ins) {
+			continue
+		}
+		trip, ok := loopTrip(fn, loops, w.ins, m.ins)
+		if !ok || w.size.bad {
+			return report.OutOfScope, "a write between SOT and SOD is not countable: " + w.callee
+		}
+		total = total.add(w.size.mulTerm(trip))
+		if w.what == "marker" && w.marker == mSOD {
+			if j+1 < len(ws) && ws[j+1].what == "bytes" && !ws[j+1].size.bad {
+				total = total.add(ws[j+1].size)
+				if m.psot.equal(total) {
+					return report.Discharged, "Psot = " + m.psot.String() + " equals the counted bytes of the tile-part"
+				}
+				return report.Violated, "Psot declares " + m.psot.String() + " but the tile-part written here has " + total.String() + " bytes: a reader following Psot lands at the wrong offset"
+			}
+			return report.OutOfScope, "SOD is not followed by a single write of the tile data"
+		}
+		if w.what == "sodcall" {
+			if j+1 < len(ws) && ws[j+1].what == "bytes" && !ws[j+1].size.bad {
+				total = total.add(ws[j+1].size)
+				if m.psot.equal(total) {
+					return report.Discharged, "Psot = " + m.psot.String() + " equals the counted bytes of the tile-part"
+				}
+				return report.Violated, "Psot declares " + m.psot.String() + " but the tile-part written here has " + total.String() + " bytes: a reader following Psot lands at the wrong offset"
+			}
+			return report.OutOfScope, "SOD is not followed by a single write of the tile data"
+		}
+	}
+	return report.OutOfScope, "no SOD write follows the SOT helper in this function"
 }
 
 // ownerSinkRule: OWNER-SINK.
